@@ -8,6 +8,8 @@ package main
 import (
 	"context"
 	"fmt"
+	"io"
+	"log/slog"
 	"os"
 	"path/filepath"
 	"strings"
@@ -15,6 +17,8 @@ import (
 	"sync/atomic"
 	"time"
 
+	"github.com/postalsys/muti-metroo/internal/crypto"
+	"github.com/postalsys/muti-metroo/internal/identity"
 	"github.com/postalsys/muti-metroo/internal/shell"
 	"github.com/postalsys/muti-metroo/verifharness/hcq"
 	"github.com/postalsys/muti-metroo/verifharness/vh"
@@ -46,6 +50,19 @@ type stormCase struct {
 	G    int    `json:"goroutines"`
 	M    int    `json:"per_goroutine"`
 }
+
+type handlerCase struct {
+	Kind    string `json:"kind"`
+	Max     int    `json:"max_sessions"`
+	Streams int    `json:"streams"`
+	Seed    uint64 `json:"seed"`
+}
+
+// nullWriter is the handler's way back to the client; nothing is read from it.
+type nullWriter struct{}
+
+func (nullWriter) WriteStreamData(identity.AgentID, uint64, []byte, uint8) error { return nil }
+func (nullWriter) WriteStreamClose(identity.AgentID, uint64) error               { return nil }
 
 type seqCase struct {
 	Kind  string `json:"kind"`
@@ -297,6 +314,147 @@ func main() {
 		}
 	}
 
+	// handler-level storm: real shell.Handler, real processes. Streams open
+	// concurrently; some run a logger command to completion (it appends S at
+	// start and E at the end to one file), some run a sleeper and are closed
+	// early (once or twice), some ask for a command that fails to start, some
+	// are denied. The S..E interval of a logger lies inside the time its
+	// stream holds a session, so more than max overlapping intervals in the
+	// log means more than max live sessions.
+	handlerStorm := func(hc handlerCase) {
+		hc.Kind = "handler-storm"
+		r := vh.NewRand(int64(hc.Seed))
+		dirH, err := os.MkdirTemp("", "verif-c25h-")
+		if err != nil {
+			panic(err)
+		}
+		defer os.RemoveAll(dirH)
+		logFile := filepath.Join(dirH, "log")
+		e := shell.NewExecutor(shell.Config{Enabled: true, Whitelist: []string{"*"}, MaxSessions: hc.Max})
+		h := shell.NewHandler(e, nullWriter{}, slog.New(slog.NewTextHandler(io.Discard, nil)))
+		peer := identity.AgentID{9}
+		type plan struct {
+			kind  int // 0 logger to completion, 1 sleeper closed early, 2 sleeper closed twice, 3 command that cannot start, 4 garbage metadata
+			delay time.Duration
+		}
+		plans := make([]plan, hc.Streams)
+		for i := range plans {
+			plans[i] = plan{kind: r.Pick(0, 0, 0, 1, 2, 3, 4), delay: time.Duration(r.Intn(8)) * time.Millisecond}
+		}
+		var over int64
+		stop := make(chan struct{})
+		var sampler sync.WaitGroup
+		sampler.Add(1)
+		go func() {
+			defer sampler.Done()
+			for {
+				select {
+				case <-stop:
+					return
+				default:
+				}
+				if n := e.ActiveSessions(); hc.Max > 0 && n > hc.Max {
+					atomic.StoreInt64(&over, int64(n))
+				}
+				time.Sleep(200 * time.Microsecond)
+			}
+		}()
+		var wg sync.WaitGroup
+		for i := range plans {
+			wg.Add(1)
+			go func(i int) {
+				defer wg.Done()
+				p := plans[i]
+				time.Sleep(p.delay)
+				sid := uint64(100 + i)
+				priv, pub, err := crypto.GenerateEphemeralKeypair()
+				if err != nil {
+					panic(err)
+				}
+				code, srvPub := h.HandleStreamOpen(peer, sid, sid, false, pub)
+				if code != 0 {
+					return
+				}
+				shared, err := crypto.ComputeECDH(priv, srvPub)
+				if err != nil {
+					panic(err)
+				}
+				key := crypto.DeriveSessionKey(shared, sid, pub, srvPub, true)
+				var meta *shell.ShellMeta
+				switch p.kind {
+				case 0:
+					meta = &shell.ShellMeta{Command: "sh", Args: []string{"-c", "echo S >> " + logFile + "; sleep 0.03; echo E >> " + logFile}}
+				case 1, 2:
+					meta = &shell.ShellMeta{Command: "sleep", Args: []string{"5"}}
+				case 3:
+					meta = &shell.ShellMeta{Command: "/nonexistent/verif-c25-command"}
+				}
+				var frame []byte
+				if meta != nil {
+					frame, err = shell.EncodeMeta(meta)
+					if err != nil {
+						panic(err)
+					}
+				} else {
+					frame = []byte{0x01, '{', 'x'}
+				}
+				ct, err := key.Encrypt(frame)
+				if err != nil {
+					panic(err)
+				}
+				h.HandleStreamData(peer, sid, ct, 0)
+				switch p.kind {
+				case 1:
+					time.Sleep(time.Duration(2+i%5) * time.Millisecond)
+					h.HandleStreamClose(sid)
+				case 2:
+					time.Sleep(time.Duration(1+i%3) * time.Millisecond)
+					var w2 sync.WaitGroup
+					for k := 0; k < 2; k++ {
+						w2.Add(1)
+						go func() { defer w2.Done(); h.HandleStreamClose(sid) }()
+					}
+					w2.Wait()
+				}
+			}(i)
+		}
+		wg.Wait()
+		deadline := time.Now().Add(60 * time.Second)
+		for (h.ActiveStreams() > 0 || e.ActiveSessions() > 0) && time.Now().Before(deadline) {
+			time.Sleep(2 * time.Millisecond)
+		}
+		close(stop)
+		sampler.Wait()
+		c.Count("kind:handler-storm")
+		if n := e.ActiveSessions(); n != 0 {
+			c.Fail("handler-session-count-not-zero", fmt.Sprintf("%d sessions still counted after every stream ended (streams left: %d)", n, h.ActiveStreams()), hc)
+		}
+		if over != 0 {
+			c.Fail("concurrent-sessions-above-maximum", fmt.Sprintf("session counter seen at %d with maximum %d", over, hc.Max), hc)
+		}
+		data, _ := os.ReadFile(logFile)
+		cur, peak, starts := 0, 0, 0
+		for _, line := range strings.Split(string(data), "\n") {
+			switch line {
+			case "S":
+				cur++
+				starts++
+				if cur > peak {
+					peak = cur
+				}
+			case "E":
+				cur--
+			}
+		}
+		c.Count(fmt.Sprintf("handler-storm:peak-live=%d", peak))
+		if starts > 0 {
+			c.Count("handler-storm:processes-ran")
+		}
+		if hc.Max > 0 && peak > hc.Max {
+			c.Fail("live-processes-above-maximum", fmt.Sprintf("%d shell processes were alive at the same time with max_sessions %d", peak, hc.Max), hc)
+		}
+	}
+
 	// real process starts: a whitelisted command that leaves a marker file
 	dir, err := os.MkdirTemp("", "verif-c25-")
 	if err != nil {
@@ -388,6 +546,10 @@ func main() {
 			var st stormCase
 			c.ReadReplay(&st)
 			storm(st.Max, st.G, st.M)
+		case "handler-storm":
+			var hc handlerCase
+			c.ReadReplay(&hc)
+			handlerStorm(hc)
 		default:
 			var a authCase
 			c.ReadReplay(&a)
@@ -474,6 +636,11 @@ func main() {
 		nst := c.N(40, 400)
 		for i := 0; i < nst; i++ {
 			storm(c.Rand.Pick(0, 1, 1, 2, 3, 5), c.Rand.Pick(2, 4, 8, 16), c.Rand.Pick(10, 50, 200))
+		}
+		// 4b. handler-level storms with real processes
+		nh := c.N(6, 60)
+		for i := 0; i < nh; i++ {
+			handlerStorm(handlerCase{Max: c.Rand.Pick(1, 2, 3), Streams: c.Rand.Pick(8, 16, 24), Seed: c.Rand.U64() >> 1})
 		}
 		// 5. real process starts
 		procBase := authCase{Enabled: true, Whitelist: []string{"touch", "true"}, HasHash: true, Max: 1, Command: "touch", Password: rightPassword, Args: []string{"@M@"}}
